@@ -6,5 +6,8 @@ import (
 
 // fdatasync flushes written data to a file descriptor.
 func fdatasync(db *DB) error {
+	if err := verifIO(db, "fdatasync", 0); err != nil {
+		return err
+	}
 	return syscall.Fdatasync(int(db.file.Fd()))
 }
